@@ -69,7 +69,9 @@ _ENV = {}
 def env_of(kind):
     if kind not in _ENV:
         from lerax.env.unitree.g1 import locomotion, standing, standup
-        _ENV[kind] = {"locomotion": locomotion.G1Locomotion, "standing": standing.G1Standing, "standup": standup.G1Standup}[kind]()
+        # NON-default ranges: a call site that forgets to forward a configured range falls back to randomize_model's defaults and is caught
+        _ENV[kind] = {"locomotion": locomotion.G1Locomotion, "standing": standing.G1Standing, "standup": standup.G1Standup}[kind](
+            friction_range=(0.3, 0.9), friction_loss_scale_range=(0.6, 1.8), armature_scale_range=(1.0, 1.2), mass_scale_range=(0.8, 1.25), torso_offset_range=(0.5, 2.0))
     return _ENV[kind]
 
 
@@ -255,7 +257,11 @@ def unit_initial(kind):
         k, kc = kit.key_input("key")
         recorded = {}
 
+        import inspect
+        defaults = {n: p.default for n, p in inspect.signature(RZ.randomize_model).parameters.items() if p.default is not inspect.Parameter.empty}
+
         def rm_stub(model, *, key, **kw):
+            kw = {**defaults, **kw}  # same defaults as the real function
             tag = ocall("RM#", sd((), f32), key, kw["nominal_friction_loss"], kw["nominal_armature"], kw["nominal_body_mass"], jnp.asarray(kw["friction_range"], f32),
                         jnp.asarray(kw["friction_loss_scale_range"], f32), jnp.asarray(kw["armature_scale_range"], f32), jnp.asarray(kw["mass_scale_range"], f32),
                         jnp.asarray(kw["torso_offset_range"], f32))
